@@ -29,11 +29,78 @@ def locals_of(prog):
     return dbg, header
 
 
+HD = 'terraswap_pair::helpers::compute_d'
+
+
+def d_budget(ck, prog):
+    """iteration budget of compute_d (the deposit invariant).  Decided on the real MIR, loop state arbitrary, one iteration (exit and back-edge
+    paths): from an iterate d <= a + b, 3 (next + 1) > 2 d.  ASSUMED (Newton from above on a convex function; not decided here): the iterates
+    started at a + b never exceed a + b.  Then after N iterations the iterate is still above (2/3)^N (a+b) - 3: a budget N read from the MIR that leaves this bound above the exact
+    invariant of a pool inside the property's range (one whole token against 2^99 units) cannot have converged there.  That input is then run on
+    the real contract and judged by the independent invariant."""
+    import c03 as C03
+    text = prog.items[HD][2]
+    dbg = {}
+    for m in re.finditer(r'debug (\w+) => _(\d+);', text): dbg.setdefault(m.group(1), int(m.group(2)))
+    header = None; cur = None; budget = None
+    for line in text.split('\n'):
+        m = re.match(r'\s*(bb\d+)(?: \(cleanup\))?: \{', line)
+        if m: cur = m.group(1)
+        if ('as std::iter::Iterator>::next(' in line or 'as Iterator>::next(' in line) and header is None: header = cur
+        m2 = re.search(r'Range::<\w+> \{ start: const 0_\w+, end: const ([^ }]+) \}', line)
+        if m2 and budget is None:
+            try:
+                from engine.core import Interp, Ctx
+                from engine.models_cw import World
+                v = Interp(prog, Ctx(), World()).const(m2.group(1), prog.get(HD))
+                budget = int(v) if isinstance(v, int) and not isinstance(v, bool) else None
+            except Exception:
+                budget = None
+    if header is None or 'd' not in dbg or 'iter' not in dbg or budget is None:
+        ck.outside.append('NOT DECIDED in this run - C03 kernel: cannot locate the Newton loop / iteration budget of compute_d in the MIR'); return
+    def body(it):
+        c = it.ctx
+        a, b = c.sym('a', 128), c.sym('b', 128); amp = c.sym('amp', 64)
+        for v in (a, b): c.assume(v >= 1); c.assume(v < 2 ** 100)
+        c.assume(amp >= 1); c.assume(amp <= 10 ** 6)
+        return it.run(it.prog.get(HD), [Ref([amp], 0), U128(a), U128(b)])
+    def mkd(it):
+        d = it.ctx.sym('d_prev', 102); it.ctx.assume(d >= 1); it.ctx.assume(d <= z3.Int('a') + z3.Int('b')); return U512(d)
+    la = {HD: {'header': header, 'havoc': {dbg['d']: mkd, dbg['iter']: lambda it: SymRange(it.ctx.sym('iter_i', 9), budget, False)}, 'observe': [], 'keep_back': True, 'back_observe': [dbg['d']]}}
+    dprev = z3.Int('d_prev'); ok = True; n = 0
+    for p in ck.explore(prog, body, 'kernel.d.step', loop_abs=la, validate=False, feas_ms=4000):
+        if p.kind == 'back': dn = deref(p.value[dbg['d']]).fields[0]
+        elif p.kind == 'ret' and p.value.variant == 'Some':
+            dn = p.value.fields[0].fields[0]
+            if is_sym(dn) and dn.eq(dprev): continue          # budget exhausted: the previous iterate is handed back
+        else: continue
+        n += 1
+        v2 = ck.oblige('C03.kernel.d.shrink', p, 3 * (dn + 1) <= 2 * dprev, 'from an iterate of at most a + b, one iteration lowers it by less than a third (minus one unit)')
+        ok = ok and v2 == 'unsat'
+    ck.require(n >= 2, 'kernel.d.step: expected exit and back-edge paths')
+    ck.assumptions.append('compute_d budget argument: iterates started at a + b never exceed a + b (used only to select the witness input; an alarm is raised only if the real contract then leaks per the independent invariant)')
+    if not ok: return
+    # the budget against a pool inside the property's range: reserves 1 whole token each (6 decimals), deposit 2^99 units of asset 0 and 1 of asset 1
+    A = 100; x, y = 10 ** 6 + 2 ** 99, 10 ** 6 + 1
+    lower = (x + y) * 2 ** budget // 3 ** budget - 3          # the last iterate is above this
+    exact = C03.d_exact(A, x, y, 1)
+    insufficient = lower * 1000 > exact * 1001
+    ck.bounds['kernel_d'] = 'compute_d: iteration budget %d read from the MIR; per-step bounds for a, b in [1, 2^100), amp in [1, 10^6]; budget judged on the pool (10^6 + 2^99, 10^6 + 1), amp 100' % budget
+    kinds = C03.KIND_CFGS['nc']
+    nice = [z3.Int('b0') == 10 ** 6 + 2 ** 99, z3.Int('b1') == 10 ** 6, z3.Int('f0') == 0, z3.Int('f1') == 0, z3.Int('S') == 2 * 10 ** 6, z3.Int('amp') == A, z3.Int('d0') == 2 ** 99, z3.Int('d1') == 1]
+    for p in ck.explore(prog, C03.provide_body(kinds, first=False, pair_type='ss', amp=C03.amp_sym, decimals=(6, 6)), 'kernel.d.budget.witness', stubs={HD: C03.stub_d}, validate=False):
+        if not p.ok: continue
+        ck.oblige('C03.kernel.d.budget', p, z3.BoolVal(bool(insufficient)), 'the iteration budget of compute_d (%d) can reach the invariant of a pool holding one whole token against 2^99 units: '
+                  '(2/3)^budget (a+b) - 3 = %d must not exceed the exact invariant %d' % (budget, lower, exact), native_pred=lambda reals, scs: C03.deposit_leaks(reals, scs, (6, 6), kinds), nice=nice)
+        break
+
+
 def run(ck, prog):
+    d_budget(ck, prog)
     dbg, header = locals_of(prog)
     need = ('y', 'iter', 'c', 'b', 'd', 'pool_sum')
     if header is None or any(k not in dbg for k in need):
-        ck.inconclusive.append('C03 kernel: cannot locate the Newton loop of calculate_stableswap_y in the MIR (locals %r, header %r)' % ({k: dbg.get(k) for k in need}, header))
+        ck.outside.append('NOT DECIDED in this run - C03 kernel: cannot locate the Newton loop of calculate_stableswap_y in the MIR (locals %r, header %r)' % ({k: dbg.get(k) for k in need}, header))
         return
     def stub_d(it, a, c):
         return OK(DEC256(it.ctx.sym('D_any', 200)))          # arbitrary invariant value (Err branch irrelevant here)
